@@ -697,13 +697,17 @@ inline int pbt_main(int argc, char** argv, const std::vector<PropSpec>& specs)
                 std::string cur_msg = res;
                 uint64_t steps = 0;
                 bool progress = true;
-                while (progress && steps < max_shrink)
+                // shrinking is bounded by steps and, because a step can be very slow on a broken tree, by 20 s of wall clock per failure:
+                // the bound affects how small the replay file is, never whether the failure is reported
+                auto shrink_t0 = std::chrono::steady_clock::now();
+                auto shrink_late = [&] { return std::chrono::steady_clock::now() - shrink_t0 > std::chrono::seconds(20); };
+                while (progress && steps < max_shrink && !shrink_late())
                 {
                     progress = false;
                     auto seq = cur.shrinks();
                     while (auto cand = seq.next())
                     {
-                        if (++steps > max_shrink)
+                        if (++steps > max_shrink || shrink_late())
                             break;
                         Case cc = cand->value();
                         std::string r2 = run_one(*spec, cc, ctx);
